@@ -95,7 +95,8 @@ theorem netlocFacts_name {ip : IpOracle} {h : Bytes} (hk : NameOk ip h) (port : 
     not_mem_plainJoin port h93 (by decide) (by decide)
   refine
     { clean := ?_, brackets := bracketsOk_plain ip n91 n93, hostname := ?_,
-      userinfo := hasUserinfo_plain port h64, port := ⟨port, portOf_plain port h58 h64 h91 hp⟩,
+      userinfo := hasUserinfo_plain port h64, literal := literalOk_plain n91 n93,
+      port := ⟨port, portOf_plain port h58 h64 h91 hp⟩,
       undecided := undecided_plain ip n91 }
   · intro c hm
     rcases mem_plainJoin hm with h1 | h1 | h1
@@ -136,7 +137,8 @@ theorem netlocFacts_ip4 {ip : IpOracle} {t : Bytes} (ht : ip4Looking t = true) (
     · subst h; decide
   refine
     { clean := ?_, brackets := bracketsOk_plain ip n91 n93, hostname := ?_,
-      userinfo := hasUserinfo_plain port h64, port := ⟨port, portOf_plain port h58 h64 h91 hp⟩,
+      userinfo := hasUserinfo_plain port h64, literal := literalOk_plain n91 n93,
+      port := ⟨port, portOf_plain port h58 h64 h91 hp⟩,
       undecided := undecided_plain ip n91 }
   · intro c hm
     have hd : ∀ c, isDigit c = true → isNetlocDelim c = false ∧ isUnsafeWs c = false := by
@@ -208,7 +210,8 @@ theorem netlocFacts_ip6 {ip : IpOracle} {t : Bytes} (ht : Ip6Text ip t) (port : 
   have hrh := rawHostname_bracket port h64 h93
   refine
     { clean := ?_, brackets := ?_, hostname := ?_,
-      userinfo := hasUserinfo_bracket port h64, port := ⟨port, portOf_bracket port h64 h93 hp⟩,
+      userinfo := hasUserinfo_bracket port h64, literal := literalOk_bracket port h91 h93 ht.zone,
+      port := ⟨port, portOf_bracket port h64 h93 hp⟩,
       undecided := ?_ }
   · intro c hm
     rcases mem_plainJoin hm with h1 | h1 | h1
